@@ -55,7 +55,7 @@ func (v *VerifOffice) Receive(id, key uint64) (net.Conn, bool) {
 	}
 	ctx, cancel := context.WithTimeout(context.Background(), 20*time.Millisecond)
 	defer cancel()
-	c, err := b.receive(ctx)
+	c, err := b.receive(ctx, nil)
 	return c, err == nil
 }
 
